@@ -70,9 +70,8 @@ Qed.
 Lemma produce_read_frame v name part thr rest :
   wt TStr name -> wt (t_produce_part v) part ->
   let body := enc (resp_ty AProduce v) (w_produce name part thr) in
-  (exists x, produce_read v (Z.of_nat (length body)) (body ++ rest) = (inl x, 0, rest)) \/
-  (exists c, produce_read v (Z.of_nat (length body)) (body ++ rest)
-             = (inr (EKafka c), 4, put_bes 4 thr ++ rest)).
+  exists r, produce_read v (Z.of_nat (length body)) (body ++ rest) = (r, 0, rest) /\
+            match r with inl _ => True | inr (EKafka _) => True | _ => False end.
 Proof.
   intros Hn Hp body. subst body. rewrite enc_produce.
   set (en := enc TStr name). set (ep := enc (t_produce_part v) part).
@@ -91,10 +90,9 @@ Proof.
   { match goal with |- read_ty ?t ?a (_ ++ ?r) = _ =>
       pose proof (read_ty_enc t part Hp a r ltac:(fold ep; lia)) as E end.
     fold ep in E. rewrite E. f_equal. f_equal. lia. }
-  unfold produce_read, expectZeroSize.
+  unfold produce_read, expectZeroSize, skipRemainingOnKafkaError.
   destruct (zfield 1 (dec_val (t_produce_part v) part) =? 0) eqn:Ez.
-  - left.
-    assert (HPP : produce_partition v sz3 (ep ++ s3)
+  - assert (HPP : produce_partition v sz3 (ep ++ s3)
                   = (inl (VL [field 0 (dec_val (t_produce_part v) part);
                               field 2 (dec_val (t_produce_part v) part);
                               field 3 (dec_val (t_produce_part v) part)]), 4, s3)).
@@ -111,9 +109,8 @@ Proof.
         2:{ erewrite bind_inl by exact Hstr. erewrite bind_inl by exact HArr.
             unfold s3. erewrite bind_inl by (apply discardInt32_enc; lia). reflexivity. }
         reflexivity. }
-    cbn. eexists. reflexivity.
-  - right.
-    assert (HPP : produce_partition v sz3 (ep ++ s3)
+    cbn. eexists. split; [reflexivity|exact I].
+  - assert (HPP : produce_partition v sz3 (ep ++ s3)
                   = (inr (EKafka (zfield 1 (dec_val (t_produce_part v) part))), 4, s3)).
     { unfold produce_partition. erewrite bind_inl by exact Hpart. rewrite Ez. reflexivity. }
     assert (HArr : readArrayWith (produce_partition v) (sz3 + 4) (put_bes 4 1 ++ ep ++ s3)
@@ -125,7 +122,9 @@ Proof.
         erewrite bind_inr.
         2:{ erewrite bind_inl by exact Hstr. erewrite bind_inr by exact HArr. reflexivity. }
         reflexivity. }
-    eexists. reflexivity.
+    (* the remainder (the throttle time) is skipped *)
+    unfold s3. pose proof (discardInt32_enc thr 4 rest ltac:(lia)) as Ed.
+    unfold discardInt32 in Ed. rewrite Ed. cbn. eexists. split; [reflexivity|exact I].
 Qed.
 
 (* ---- list-offsets v1 ---- *)
@@ -186,29 +185,32 @@ Proof.
 Qed.
 
 (* ---- conn_do on these frames ---- *)
-Lemma post_no_error topic a v x : post_error topic a v x = None ->
-  a <> AController -> a <> ABrokers -> post topic a v x = ROk x.
-Proof. intros H H1 H2. unfold post. rewrite H. destruct a; try reflexivity; contradiction. Qed.
+Definition done_result (r : result) : Prop :=
+  match r with ROk _ => True | RErr (EKafka _) => True | _ => False end.
 
-(* produce, every well-formed response: success consumes the frame; a partition error code
-   leaves exactly the 4-byte throttle field (the general form of F2) *)
+Lemma post_done topic a v x : done_result (post topic a v x).
+Proof.
+  unfold post. destruct (post_error topic a v x); [exact I|]. destruct a; exact I.
+Qed.
+
+(* produce, every well-formed response: success or the partition's error code, and in both
+   cases the whole frame is consumed *)
 Theorem conn_do_produce_frame st v off name part thr rest :
   wt TStr name -> wt (t_produce_part v) part ->
   let body := enc (resp_ty AProduce v) (w_produce name part thr) in
   let id := wrap32 (corr st + 1) in
   fits body -> closed st = false ->
-  (exists x, conn_do st (mkOp AProduce v off) (frame id body ++ rest)
-             = (mkConn false id (cfg_topic st) (offset st), ROk x, rest)) \/
-  (exists c, conn_do st (mkOp AProduce v off) (frame id body ++ rest)
-             = (mkConn false id (cfg_topic st) (offset st), RErr (EKafka c), put_bes 4 thr ++ rest)).
+  exists r, conn_do st (mkOp AProduce v off) (frame id body ++ rest)
+            = (mkConn false id (cfg_topic st) (offset st), r, rest) /\ done_result r.
 Proof.
   intros Hn Hp body id Hfit Hcl.
-  rewrite conn_do_generic by (try exact Hcl; cbn; discriminate). cbv zeta. cbn [op_api op_ver].
+  rewrite conn_do_unfold by exact Hcl. cbv zeta. cbn [op_api op_ver].
   unfold id. rewrite wait_response_frame by (try apply wrap32_in_signed; exact Hfit).
   cbn [op_read].
-  destruct (produce_read_frame v name part thr rest Hn Hp) as [[x E]|[c E]]; fold body in E; rewrite E.
-  - left. exists x. rewrite post_no_error by (try reflexivity; discriminate). reflexivity.
-  - right. exists c. reflexivity.
+  destruct (produce_read_frame v name part thr rest Hn Hp) as (r & E & Hr); fold body in E; rewrite E.
+  destruct r as [x|e].
+  - eexists. split; [reflexivity|apply post_done].
+  - destruct e; try contradiction. eexists. split; [reflexivity|exact I].
 Qed.
 
 Theorem conn_do_listoffsets_frame st off name part rest :
@@ -217,16 +219,15 @@ Theorem conn_do_listoffsets_frame st off name part rest :
   let id := wrap32 (corr st + 1) in
   fits body -> closed st = false ->
   exists r, conn_do st (mkOp AListOffsets 1 off) (frame id body ++ rest)
-            = (mkConn false id (cfg_topic st) (offset st), r, rest) /\
-            match r with ROk _ => True | RErr (EKafka _) => True | _ => False end.
+            = (mkConn false id (cfg_topic st) (offset st), r, rest) /\ done_result r.
 Proof.
   intros Hn Hp body id Hfit Hcl.
-  rewrite conn_do_generic by (try exact Hcl; cbn; discriminate). cbv zeta. cbn [op_api op_ver].
+  rewrite conn_do_unfold by exact Hcl. cbv zeta. cbn [op_api op_ver].
   unfold id. rewrite wait_response_frame by (try apply wrap32_in_signed; exact Hfit).
   cbn [op_read].
   destruct (listoffsets_read_frame name part rest Hn Hp) as (r & E & Hr); fold body in E; rewrite E.
   destruct r as [x|e].
-  - eexists. split; [rewrite post_no_error by (try reflexivity; discriminate); reflexivity|exact I].
+  - eexists. split; [reflexivity|apply post_done].
   - destruct e; try contradiction. eexists. split; [reflexivity|exact I].
 Qed.
 
@@ -251,48 +252,6 @@ Proof.
   apply Forall_cons_iff in Hps as [Hp _]. auto.
 Qed.
 
-(* list-offsets v1: aligned after a Kafka error (single topic / partition) *)
-Theorem aligned_listoffsets : forall w st off code rest st' s',
-  well_formed AListOffsets 1 w -> fits (enc (resp_ty AListOffsets 1) w) -> closed st = false ->
-  conn_do st (mkOp AListOffsets 1 off) (frame (wrap32 (corr st + 1)) (enc (resp_ty AListOffsets 1) w) ++ rest)
-    = (st', RErr (EKafka code), s') ->
-  s' = rest /\ closed st' = false.
-Proof.
-  intros w st off code rest st' s' Hwf Hfit Hcl H.
-  destruct (wf_listoffsets w Hwf) as (name & part & Hw & Hn & Hp). subst w.
-  destruct (conn_do_listoffsets_frame st off name part rest Hn Hp Hfit Hcl) as (r & E & _).
-  rewrite E in H. inversion H; subst. split; reflexivity.
-Qed.
-
-(* produce, all versions, EVERY well-formed response with a partition error: not aligned *)
-Theorem produce_error_never_aligned : forall v w st off code rest st' s',
-  well_formed AProduce v w -> fits (enc (resp_ty AProduce v) w) -> closed st = false ->
-  conn_do st (mkOp AProduce v off) (frame (wrap32 (corr st + 1)) (enc (resp_ty AProduce v) w) ++ rest)
-    = (st', RErr (EKafka code), s') ->
-  exists thr, s' = put_bes 4 thr ++ rest /\ closed st' = false.
-Proof.
-  intros v w st off code rest st' s' Hwf Hfit Hcl H.
-  destruct (wf_produce v w Hwf) as (name & part & thr & Hw & Hn & Hp). subst w.
-  destruct (conn_do_produce_frame st v off name part thr rest Hn Hp Hfit Hcl) as [[x E]|[c E]];
-    rewrite E in H; inversion H; subst.
-  exists thr. split; reflexivity.
-Qed.
-
-(* a successful exchange, cut anywhere: io.EOF / io.ErrUnexpectedEOF and the Conn closes *)
-Theorem conn_cut_of_ok st o id body st' x s' k :
-  closed st = false -> op_api o <> AFetch -> op_api o <> AApiVersions -> fits body ->
-  conn_do st o (frame id body) = (st', ROk x, s') ->
-  (k < length (frame id body))%nat ->
-  exists e st2 s2,
-    conn_do st o (firstn k (frame id body)) = (st2, RErr e, s2) /\ transport e = true /\ closed st2 = true.
-Proof.
-  intros Hcl Hf Ha Hfit H Hk.
-  destruct (frame_exact _ _ _ _ _ _ Hcl Hf Ha H I) as [Hc _].
-  assert (Hs : s' = []).
-  { apply (consumed_frame_frame id body [] s' Hfit). rewrite app_nil_r. exact Hc. }
-  subst s'. eapply conn_do_cut; try eassumption. cbn [length]. lia.
-Qed.
-
 (* ---- ApiVersions v0 ---- *)
 Definition t_apiv := tup [TI16; TI16; TI16].
 
@@ -300,7 +259,7 @@ Lemma apiversions_read_frame e lo rest :
   in_signed 2 e -> wt (TArr t_apiv) (WL lo) ->
   let body := enc (resp_ty AApiVersions 0) (WP (WZ e) (WL lo)) in
   exists r, apiversions_read (Z.of_nat (length body)) (body ++ rest) = (r, 0, rest) /\
-            match r with inr (EKafka _) => lo <> None | _ => True end.
+            match r with inr e' => is_kafka e' = false | _ => True end.
 Proof.
   intros He Hl body. unfold apiversions_read.
   destruct lo as [l|].
@@ -320,46 +279,41 @@ Proof.
     { unfold ef. rewrite (rep_enc t_apiv (read_ty_enc t_apiv) l Hall) by (fold ef; lia).
       fold ef. f_equal. f_equal. lia. }
     erewrite bind_inl by exact Hrep.
-    destruct (e =? 0); eexists; (split; [reflexivity|]); try exact I. discriminate.
+    eexists. split; [reflexivity|exact I].
   - assert (Hb : body = put_bes 2 e ++ put_bes 4 (-1)) by reflexivity.
     rewrite Hb. clear Hb body.
     rewrite !app_length, !put_bes_length. rewrite <- !app_assoc.
     erewrite bind_inl by (apply read_int_enc; [lia|exact He|lia]).
     erewrite bind_inl by (apply read_int_enc; [lia|apply in_signed_4_len; unfold ZM31; lia|lia]).
     destruct (Z.ltb_spec (-1) 0); [|lia].
-    unfold fail. eexists. split; [f_equal; f_equal; lia|exact I].
+    unfold fail. eexists. split; [f_equal; f_equal; lia|reflexivity].
 Qed.
 
-Theorem aligned_apiversions : forall w st off code rest st' s',
-  well_formed AApiVersions 0 w -> fits (enc (resp_ty AApiVersions 0) w) -> closed st = false ->
-  conn_do st (mkOp AApiVersions 0 off) (frame (wrap32 (corr st + 1)) (enc (resp_ty AApiVersions 0) w) ++ rest)
-    = (st', RErr (EKafka code), s') ->
-  s' = rest /\ closed st' = false.
+(* ApiVersions on a well-formed response: the whole frame is consumed, whatever the outcome;
+   a failure (null array) is not a Kafka error *)
+Theorem conn_do_apiversions_frame st off w rest :
+  well_formed AApiVersions 0 w ->
+  let body := enc (resp_ty AApiVersions 0) w in
+  let id := wrap32 (corr st + 1) in
+  fits body -> closed st = false ->
+  exists st' r, conn_do st (mkOp AApiVersions 0 off) (frame id body ++ rest) = (st', r, rest) /\
+                (done_result r -> closed st' = false) /\
+                (~ done_result r -> exists e, r = RErr e /\ is_kafka e = false /\ closed st' = true).
 Proof.
-  intros w st off code rest st' s' [Hwt _] Hfit Hcl H.
+  intros [Hwt _] body id Hfit Hcl. subst body.
   cbn [resp_ty tup] in Hwt. fold t_apiv in Hwt.
   destruct w as [| | |a b|]; cbn [wt] in Hwt; try contradiction. destruct Hwt as [Ha Hb].
   destruct a as [e| | | |]; cbn [wt] in Ha; try contradiction.
   destruct b as [| |lo| |]; try (cbn [wt] in Hb; contradiction).
-  unfold conn_do in H. rewrite Hcl in H. cbn [op_api op_ver] in H.
-  rewrite wait_response_frame in H by (try apply wrap32_in_signed; exact Hfit).
-  destruct (apiversions_read_frame e lo rest Ha Hb) as (r & E & _).
-  cbv zeta in E. rewrite E in H.
-  destruct r as [x|e0]; inversion H; subst. split; reflexivity.
-Qed.
-
-(* list-offsets v1, every well-formed response (with or without an error code), every cut *)
-Theorem conn_cut_listoffsets st off w k :
-  well_formed AListOffsets 1 w -> fits (enc (resp_ty AListOffsets 1) w) -> closed st = false ->
-  (k < length (frame (wrap32 (corr st + 1)) (enc (resp_ty AListOffsets 1) w)))%nat ->
-  exists e st2 s2,
-    conn_do st (mkOp AListOffsets 1 off) (firstn k (frame (wrap32 (corr st + 1)) (enc (resp_ty AListOffsets 1) w)))
-      = (st2, RErr e, s2) /\ transport e = true /\ closed st2 = true.
-Proof.
-  intros Hwf Hfit Hcl Hk.
-  destruct (wf_listoffsets w Hwf) as (name & part & Hw & Hn & Hp). subst w.
-  destruct (conn_do_listoffsets_frame st off name part [] Hn Hp Hfit Hcl) as (r & E & _).
-  rewrite app_nil_r in E.
-  eapply conn_do_cut; try exact E; try exact Hcl; cbn [op_api]; try discriminate.
-  cbn [length]. lia.
+  rewrite conn_do_unfold by exact Hcl. cbv zeta. cbn [op_api op_ver].
+  unfold id. rewrite wait_response_frame by (try apply wrap32_in_signed; exact Hfit).
+  cbn [op_read].
+  destruct (apiversions_read_frame e lo rest Ha Hb) as (r & E & Hr).
+  cbv zeta in E. rewrite E.
+  destruct r as [x|e0].
+  - eexists. eexists. split; [reflexivity|]. split; [reflexivity|].
+    intros Hn. exfalso. apply Hn. apply post_done.
+  - cbn [map_err]. rewrite Hr. eexists. eexists. split; [reflexivity|]. split.
+    + intros Hd. destruct e0; try contradiction. discriminate Hr.
+    + intros _. exists e0. auto.
 Qed.
